@@ -18,6 +18,7 @@ RULE = (
     "monitor's own second-difference operator; wrappers equal their definitions computed from the monitor's own banded "
     "solve (1e-8 of scale); diff_log_demean has input length and |mean| <= 1e-12 scale; 18 finite moments. "
     "Non-trivial = length >= 10 and non-polynomial shape; distinct by (shape, n, lambda, seed)."
+    ' Shapes include +-a random walks and large levels with small movements; every second series is followed by a filter call on another series of the same length, after which the first (cycle, trend) must be unchanged.'
 )
 ASSUMPTIONS = [
     "the forward error of a solve at lambda up to 1e7 is conditioning, so the optimality residual is the verdict for general lambda",
